@@ -125,6 +125,8 @@ func runCheck(id, tier string) int {
 		return checkC17(tier)
 	case "C19":
 		return checkC19(tier)
+	case "C20":
+		return checkC20(tier)
 	case "C06":
 		return checkC06(tier)
 	case "C07":
